@@ -857,6 +857,14 @@ class IsoHybrid:
 
         return (cc, padding)
 
+    def _calc_c(self, iso_size):
+        # type: (int) -> int
+        """
+        Calculate the real (unclamped) number of cylinders of the padded image.
+        """
+        cylsize = self.geometry_heads * self.geometry_sectors * 512
+        return (iso_size + self._calc_cc(iso_size)[1]) // cylsize
+
     def record(self, iso_size):
         # type: (int) -> bytes
         """
@@ -879,7 +887,7 @@ class IsoHybrid:
                 cc = self._calc_cc(iso_size)[0]
                 esect = self.geometry_sectors + (((cc - 1) & 0x300) >> 2)
                 ecyle = (cc - 1) & 0xff
-                psize = cc * self.geometry_heads * self.geometry_sectors - self.part_offset
+                psize = self._calc_c(iso_size) * self.geometry_heads * self.geometry_sectors - self.part_offset
                 raw = struct.pack('<BBBBBBBBLL', 0x80, self.bhead, self.bsect,
                                   self.bcyle, self.ptype, self.ehead, esect,
                                   ecyle, self.part_offset, psize)
